@@ -1,4 +1,4 @@
-import sys, os, subprocess, json, re, time, fcntl, shutil, glob
+import sys, os, subprocess, json, re, time, fcntl, shutil, glob, hashlib
 
 VERIF = os.path.dirname(os.path.dirname(os.path.abspath(__file__)))
 REPO = "/repo"
@@ -698,12 +698,25 @@ def run_property(pid, tier):
             run.violation("harness no longer builds against /repo (accessor or API shape changed): " + out.strip().split("\n")[-1][:300],
                           dict(kind="correspondence", broken="go build -tags verif -overlay (harness vs /repo)", output=out[-3000:]), False)
             return run.finish(level=cfg.get("level", "proof"))
-        for sq in cfg.get("seq", []):
-            stage_seq(run, cfg, sq)
-        for cq in cfg.get("conc", []):
-            stage_conc(run, cfg, cq)
-        for extra in cfg.get("stages", []):
-            extra(run, cfg)
+        # the sources this property is anchored in differ from the state the models were validated against:
+        # not an alarm, but a reason to look harder (two more PRNG streams) on this run
+        changed = changed_anchor_files(pid) if os.environ.get("VERIF_ESCALATE", "1") != "0" else []
+        seeds = [run.seed] + ([run.seed + 7919, run.seed + 15838] if changed and tier == "quick" else [])
+        if changed:
+            run.cov["escalated"] = dict(reason="anchor files changed since the models were last validated: " + ", ".join(changed),
+                                        seeds=seeds)
+        seed0 = run.seed
+        for sd in seeds:
+            run.seed = sd
+            for sq in cfg.get("seq", []):
+                stage_seq(run, cfg, sq)
+            for cq in cfg.get("conc", []):
+                stage_conc(run, cfg, cq)
+            for extra in cfg.get("stages", []):
+                extra(run, cfg)
+            if run.violations:
+                break
+        run.seed = seed0
         if (proof_broken or extractor_broken) and not run.violations and not run.known_hits:
             # the search (correspondence + monitors on the real code) found no concrete failing input
             what = proof_broken or extractor_broken
@@ -715,6 +728,48 @@ def run_property(pid, tier):
     except Broken as e:
         log("CHECK-BROKEN: " + str(e))
         return 2
+
+
+FINGERPRINTS = os.path.join(VERIF, "fingerprints.json")
+
+
+def anchor_files(pid):
+    """source files a property is anchored in (properties.jsonl) plus the files instrumented for its harness"""
+    files = []
+    for line in open(os.path.join(VERIF, "properties.jsonl")):
+        p = json.loads(line)
+        if p["id"] == pid:
+            files = list(p["anchors"]["files"])
+    return sorted(set(files))
+
+
+def file_sha(rel):
+    try:
+        return hashlib.sha256(open(os.path.join(REPO, rel), "rb").read()).hexdigest()
+    except OSError:
+        return "missing"
+
+
+def changed_anchor_files(pid):
+    """anchor files whose content differs from the state the models were last validated against
+    (fingerprints.json, rewritten by `./check fingerprints` after every fix: commit).  A difference is NOT an
+    alarm: it only makes the check spend more effort (more seeds) on this run."""
+    try:
+        rec = json.load(open(FINGERPRINTS))["files"]
+    except Exception:
+        return []
+    return [f for f in anchor_files(pid) if rec.get(f) != file_sha(f)]
+
+
+def do_fingerprints():
+    files = {}
+    for line in open(os.path.join(VERIF, "properties.jsonl")):
+        for f in json.loads(line)["anchors"]["files"]:
+            files[f] = file_sha(f)
+    rc, head = sh(["git", "-C", REPO, "rev-parse", "HEAD"])
+    json.dump(dict(repo_head=head.strip(), files=dict(sorted(files.items()))), open(FINGERPRINTS, "w"), indent=1)
+    log(f"fingerprints of {len(files)} anchor files written")
+    return 0
 
 
 def do_replay(path):
@@ -772,5 +827,7 @@ def main(argv):
         return do_setup()
     if argv[0] == "replay":
         return do_replay(argv[1])
+    if argv[0] == "fingerprints":
+        return do_fingerprints()
     tier = argv[1] if len(argv) > 1 else os.environ.get("VERIF_TIER", "quick")
     return run_property(argv[0], tier)
